@@ -268,3 +268,70 @@ func mergeIn(t *TyDef, prior, v *Val, opt string, protoArrays bool) *Val {
 	}
 	return normIn(t, v)
 }
+
+// f13Norm: finding F13. In the protobuf repeated form (ProtoCompatibleArrays, or a
+// `proto` tag) a list with no elements writes nothing, so a struct field holding a
+// non-nil pointer to an EMPTY slice of length-delimited elements encodes to nothing
+// and reads back as a nil pointer. Returns v with exactly those pointers made nil,
+// and whether there was one.
+func f13Norm(protoArrays bool, t *TyDef, opt string, v *Val) (*Val, bool) {
+	u := t.under()
+	switch u.K {
+	case "ptr":
+		if v.P == nil {
+			return v, false
+		}
+		eu := u.Elem.under()
+		e := refEnc{protoArrays: protoArrays}
+		if eu.K == "slice" && !eu.isBytes() && e.wt(eu.Elem, "") == 2 && (protoArrays || opt == "proto") && v.P.K == "l" && len(v.P.L) == 0 {
+			return &Val{K: "p"}, true
+		}
+		in, ch := f13Norm(protoArrays, u.Elem, "", v.P)
+		return &Val{K: "p", P: in}, ch
+	case "slice":
+		if u.isBytes() || v.K != "l" {
+			return v, false
+		}
+		out, any := &Val{K: "l"}, false
+		for _, x := range v.L {
+			y, ch := f13Norm(protoArrays, u.Elem, "", x)
+			out.L = append(out.L, y)
+			any = any || ch
+		}
+		return out, any
+	case "map":
+		if v.K != "m" {
+			return v, false
+		}
+		out, any := &Val{K: "m"}, false
+		for _, e := range v.M {
+			y, ch := f13Norm(protoArrays, u.Elem, "", e[1])
+			out.M = append(out.M, [2]*Val{e[0], y})
+			any = any || ch
+		}
+		return out, any
+	case "struct":
+		if u.K != "struct" || v.K != "r" {
+			return v, false
+		}
+		out, any := &Val{K: "r"}, false
+		j := 0
+		for _, f := range u.Fields {
+			if !fieldEncoded(f) {
+				continue
+			}
+			if j >= len(v.L) {
+				return v, false
+			}
+			_, fopt := splitTag(f.Plenc)
+			y, ch := f13Norm(protoArrays, f.T, fopt, v.L[j])
+			out.L = append(out.L, y)
+			any = any || ch
+			j++
+		}
+		return out, any
+	}
+	return v, false
+}
+
+const f13Text = "F13 a non-nil pointer to an empty slice of length-delimited elements has no representation in the protobuf repeated form and reads back nil"
